@@ -465,7 +465,11 @@ class NDNApp:
         :type name: :any:`NonStrictName`
         """
         name = Name.normalize(name)
-        del self._prefix_tree[name]
+        try:
+            del self._prefix_tree[name]
+        except KeyError:
+            # The prefix was registered without a callback function (register(name, None)): there is no entry to remove
+            pass
         # Commands are issued one at a time, each with a timestamp of its own (see register)
         async with self._prefix_register_semaphore:
             await self._wait_for_new_command_timestamp()
